@@ -1,7 +1,8 @@
 import Dasp.Driver.Loop
+import Dasp.Driver.Nodes
 open Dasp.Driver
 
--- stub: replaced when property C16 is wired in
 def main : IO Unit := runDriver fun
+  | "node" :: rest => nodeLine rest
   | [] => ""
   | _ => "bad-op"
